@@ -474,7 +474,61 @@ def fam_subschain(rng):
     return thunk
 
 
+def fam_tensordot(rng):
+    """two-Tensor contractions with 3-4 shared reduced inputs of EQUAL size, in every relative order of those
+    inputs in the two operands (all 6 permutations for 3, sampled for 4), 0-2 kept inputs on each side, all
+    semirings incl. (logaddexp, add) — reached directly, through normalize->eager / the optimizer, and through
+    funsor.einsum.einsum with the numpy / numpy_log backends."""
+    import itertools as _it
+    semis = [(ops.logaddexp, ops.add, "log", "funsor.einsum.numpy_log"), (ops.logaddexp, ops.add, "log", "funsor.einsum.numpy_log"),
+             (ops.logaddexp, ops.add, "log", "funsor.einsum.numpy_log"), (ops.add, ops.mul, "int", "numpy"), (ops.max, ops.add, "int", "funsor.einsum.numpy_map"),
+             (ops.min, ops.add, "int", None)]
+
+    def thunk():
+        red, bin_, kind, backend = rng.choice(semis)
+        nshared = rng.choice([3, 3, 3, 4])
+        size = rng.choice([2, 2, 3]) if nshared == 3 else 2
+        shared = ["a", "b", "c", "d"][:nshared]
+        perms = list(_it.permutations(shared))
+        perm = list(rng.choice(perms))
+        kx = ["i", "j"][: rng.choice([0, 1, 1, 2])]
+        ky = ["l", "m"][: rng.choice([0, 1, 1, 2])]
+        sizes = {n: size for n in shared}
+        sizes.update({"i": 2, "j": 3, "l": 2, "m": 2})
+
+        def tens(names):
+            ins = OrderedDict((n, Bint[sizes[n]]) for n in names)
+            shape = tuple(sizes[n] for n in names)
+            n = int(np.prod(shape)) if shape else 1
+            if kind == "log":
+                with np.errstate(divide="ignore"):
+                    vals = [float(np.log(rng.choice([0.25, 0.5, 1.0, 2.0, 3.0, 5.0]))) for _ in range(n)]
+            else:
+                vals = [float(rng.choice([-2, -1, 0, 1, 2, 3])) for _ in range(n)]
+            return Tensor(np.array(vals).reshape(shape), ins)
+        xnames = list(kx) + shared
+        ynames = perm + list(ky)
+        if rng.random() < 0.3:                       # kept inputs in other positions too
+            rng.shuffle(xnames)
+        x, y = tens(xnames), tens(ynames)
+        rvars = frozenset(Variable(n, Bint[sizes[n]]) for n in shared)
+        k = rng.randrange(3)
+        if k == 0:
+            return Contraction(red, bin_, rvars, x, y)
+        if k == 1 and backend is not None:
+            from funsor.einsum import einsum as f_einsum
+            sym = {n: chr(ord("a") + q) for q, n in enumerate(sorted(set(xnames + ynames)))}
+            xs = Tensor(x.data, OrderedDict((sym[n], d) for n, d in x.inputs.items()))
+            ys = Tensor(y.data, OrderedDict((sym[n], d) for n, d in y.inputs.items()))
+            eqn = "".join(sym[n] for n in xnames) + "," + "".join(sym[n] for n in ynames) + "->" + \
+                  "".join(sym[n] for n in kx + ky)
+            return f_einsum(eqn, xs, ys, backend=backend)
+        return bin_(x, y).reduce(red, rvars)
+    return thunk
+
+
 FAMILIES = OrderedDict([
+    ("tensordot", fam_tensordot),
     ("subschain", fam_subschain),
     ("integrate", fam_integrate), ("scatter", fam_scatter), ("misc", fam_misc),
     ("slices", fam_slices),
